@@ -101,7 +101,8 @@ class Interp:
         self.effects: list = []          # ghost event log of the current path
         self.contracts: dict = {}        # id(function) -> handler(interp, args, kwargs) -> Val
         self.specs: dict = {}            # id(function) -> SpecInfo
-        self.inline_ok = lambda fn: (getattr(fn, "__module__", "") or "").startswith(("pymbolic", "contracts"))
+        self.inline_ok = lambda fn: (getattr(fn, "__module__", "") or "").startswith(("pymbolic", "contracts")) \
+            or "_MODULE_SOURCE_CODE" in getattr(fn, "__globals__", {})
         self.class_table = class_table or []
         self.class_index = {c: i for i, c in enumerate(self.class_table)}
         self.occ: dict = {}              # fresh-name occurrence counters (deterministic per path)
@@ -386,6 +387,13 @@ class Interp:
             return smt.seq_of(c, [self.lift(Conc(x)) for x in v.obj])
         if isinstance(v, SymV):
             return fn("iter_seq", V, S)(v.t)
+        if isinstance(v, SymMap):
+            return v.keys
+        if isinstance(v, tuple) and len(v) == 2 and isinstance(v[1], SymMap):
+            if v[0] == "keys":
+                return v[1].keys
+            if v[0] == "values":
+                return v[1].vals
         raise Unsupported(f"not iterable symbolically: {type(v).__name__}")
 
     def truth(self, v):
